@@ -59,6 +59,10 @@ def main(names, tier="quick", props=None):
             pid = meta["property"]
             r = sh(f"git -C {wt} apply {d/'patch.diff'}")
             if r.returncode != 0:
+                # (the tree has moved since the change was written: try a three-way merge, keep the working tree only)
+                r = sh(f"git -C {wt} apply --3way {d/'patch.diff'} && git -C {wt} reset -q")
+            if r.returncode != 0:
+                sh(f"git -C {wt} checkout -- . ; git -C {wt} reset -q --hard")
                 results[d.name] = {"status": "patch does not apply"}; print(d.name, results[d.name]); continue
             try:
                 for p in (props or [pid]):
